@@ -290,15 +290,20 @@ def kids_type(member):
 
 
 def _bounded(args, i, width, cn):
+    """Is some other argument a bound that cannot exceed the field: sizeof of
+    the very same member, strnlen(member, sizeof(member)), or a literal <= width."""
+    me = C.strip_all(args[i]).get("name")
     for j, a in enumerate(args):
         if j == i:
             continue
         so = _sizeof_target(a)
-        if so and re.search(r"char\[%d\]|ut_" % width, so[0] + "x") and so[1] <= 0:
+        if so and so[0] == me and so[1] <= 0:
             return True
         core = C.strip_all(a)
         if core.get("kind") == "CallExpr" and C.callee(core) == "strnlen":
-            return _bounded(C.call_args(core), 0, width, "strnlen")
+            ia = C.call_args(core)
+            if ia and C.strip_all(ia[0]).get("name") == me:
+                return _bounded(ia, 0, width, "strnlen")
         v = C.int_value(a)
         if v is not None and 0 < v <= width:
             return True
@@ -496,138 +501,27 @@ PAIRS = {"setmntent": "endmntent", "socket": "close", "getifaddrs": "freeifaddrs
 
 
 def _r6(ctx, funcs):
+    from ..core.ccfg import typestate
     for file, fn in funcs:
-        acq = []
-        for n in C.walk(fn):
-            if n.get("kind") == "CallExpr" and C.callee(n) in PAIRS:
-                acq.append((C.callee(n), n))
-        for name, node in acq:
-            rel = PAIRS[name]
-            rels = [n for n in C.walk(fn) if n.get("kind") == "CallExpr" and C.callee(n) == rel]
-            rets = [n for n in C.walk(fn) if n.get("kind") == "ReturnStmt"
-                    and n.get("_line", 0) > node.get("_line", 0)]
-            key = f"{fn['name']}:{name}/{rel}"
-            if not rels:
-                ctx.fail("C17.R6", key, fn["_file"], node["_line"], fn["name"],
-                         f"{name}() is never paired with {rel}()")
+        present = {C.callee(n) for n in C.walk(fn) if n.get("kind") == "CallExpr"}
+        for name, rel in PAIRS.items():
+            if name not in present:
                 continue
-            # every return after the acquisition is preceded (in its block chain)
-            # by a release, or is the early return taken when acquisition failed
-            leaks = []
-            for r in rets:
-                if _release_before_return(fn, r, rels, node):
-                    continue
-                leaks.append(r["_line"])
-            # double release on one path: two releases in the same straight-line block
-            dbl = _double_release(fn, rel)
+            sites, leaks, doubles = typestate(fn, name, rel)
+            key = f"{fn['name']}:{name}/{rel}"
             if leaks:
-                ctx.fail("C17.R6", key, fn["_file"], leaks[0], fn["name"],
-                         f"a return at line(s) {leaks} is reachable after {name}() without "
-                         f"{rel}(): resource leak on that path")
-            elif dbl:
-                ctx.fail("C17.R6", key + ":double", fn["_file"], dbl, fn["name"],
-                         f"{rel}() can run twice on one path")
+                what, line = leaks[0]
+                ctx.fail("C17.R6", key, fn["_file"], line or fn.get("_line", 0), fn["name"],
+                         f"{name}() result is still held at a {what} (line {line}): "
+                         f"{rel}() is missing on that path (resource leak; "
+                         f"{len(leaks)} such path ends)")
+            elif doubles:
+                ctx.fail("C17.R6", key + ":double", fn["_file"], doubles[0], fn["name"],
+                         f"{rel}() can run twice on one path (line {doubles[0]})")
             else:
-                ctx.ok("C17.R6", key, sample=f"{fn['name']}: {name} -> {rel} on every return "
-                       f"({len(rets)} returns, {len(rels)} release sites)")
-
-
-def _block_path(fn, target):
-    """List of (CompoundStmt, index) from the function body down to target."""
-    path = []
-
-    def rec(n):
-        if n is target:
-            return True
-        for i, c in enumerate(C.kids(n)):
-            if rec(c):
-                path.append((n, i))
-                return True
-        return False
-    rec(fn)
-    path.reverse()
-    return path
-
-
-def _release_before_return(fn, ret, rels, acq):
-    """True if on the way to `ret` a release call precedes it in one of its
-    enclosing blocks (after the acquisition), or `ret` is guarded by the
-    acquisition-failed test, or jumps to a label block that releases."""
-    path = _block_path(fn, ret)
-    for parent, idx in path:
-        if parent.get("kind") in ("CompoundStmt", "LabelStmt"):
-            for sib in C.kids(parent)[:idx]:
-                if sib.get("_line", 0) < acq.get("_line", 0):
-                    continue
-                if any(x in rels for x in C.walk(sib) if x.get("kind") == "CallExpr") and \
-                        sib.get("kind") not in ("IfStmt", "WhileStmt", "ForStmt"):
-                    return True
-                # `if (res != NULL) release(res);` guard form
-                if sib.get("kind") == "IfStmt" and any(
-                        x in rels for x in C.walk(sib) if x.get("kind") == "CallExpr") and \
-                        not any(x.get("kind") == "ReturnStmt" for x in C.walk(sib)):
-                    return True
-        if parent.get("kind") == "IfStmt":
-            cond = C.kids(parent)[0]
-            txt = _names(cond)
-            # failure test of the acquired variable right after acquisition
-            if parent.get("_line", 0) - acq.get("_line", 0) <= 6 and \
-                    (_acq_var(fn, acq) in txt or "errno" in txt):
-                if not any(x in rels for x in C.walk(parent) if x.get("kind") == "CallExpr"):
-                    # an early return on the acquisition-failed branch, or on an
-                    # error branch where the loop `break`s are not involved
-                    if _is_failure_test(cond, _acq_var(fn, acq)):
-                        return True
-    # release inside the same IfStmt/branch as the return
-    for parent, idx in path:
-        if parent.get("kind") == "CompoundStmt":
-            before = C.kids(parent)[:idx]
-            if any(any(x in rels for x in C.walk(s) if x.get("kind") == "CallExpr") for s in before):
-                return True
-    return False
-
-
-def _names(n):
-    return {(x.get("referencedDecl") or {}).get("name") for x in C.walk(n)} - {None}
-
-
-def _acq_var(fn, acq):
-    """Variable the acquisition result is stored in."""
-    for n in C.walk(fn):
-        if n.get("kind") == "BinaryOperator" and n.get("opcode") == "=":
-            l, r = C.kids(n)
-            if any(x is acq for x in C.walk(r)):
-                return (C.strip_all(l).get("referencedDecl") or {}).get("name")
-        if n.get("kind") == "VarDecl" and any(x is acq for x in C.walk(n)):
-            return n.get("name")
-    return None
-
-
-def _is_failure_test(cond, var):
-    """var == NULL / var == -1 / !var / (var == 0) || (var == NULL)"""
-    for x in C.walk(cond):
-        if x.get("kind") == "BinaryOperator" and x.get("opcode") == "==":
-            if var in _names(x):
-                return True
-        if x.get("kind") == "UnaryOperator" and x.get("opcode") == "!" and var in _names(x):
-            return True
-        if x.get("kind") == "BinaryOperator" and x.get("opcode") == "!=" and var is None:
-            return True
-    return False
-
-
-def _double_release(fn, rel):
-    for n in C.walk(fn):
-        if n.get("kind") == "CompoundStmt":
-            direct = [k for k in C.kids(n) if k.get("kind") == "CallExpr" and C.callee(k) == rel]
-            if len(direct) > 1:
-                # two releases in one block with no jump between them
-                i1, i2 = [C.kids(n).index(d) for d in direct[:2]]
-                between = C.kids(n)[i1 + 1:i2]
-                if not any(x.get("kind") in ("ReturnStmt", "GotoStmt", "BreakStmt", "LabelStmt")
-                           for b in between for x in C.walk(b)):
-                    return direct[1].get("_line", 0)
-    return 0
+                ctx.ok("C17.R6", key, sample=f"{fn['name']}: {sites} {name}() site(s), every "
+                       f"path to a return passes {rel}() exactly once (or the failed-"
+                       f"acquisition branch)")
 
 
 def _r7(ctx, funcs):
